@@ -197,15 +197,15 @@ class Ctx:
             self.violations.append({
                 'clause': clause, 'key': key, 'case': jsonable(case),
                 'detail': jsonable(detail), 'env_mode': os.environ.get('VERIF_ENVMODE', 'default')})
-            self._write_partial()
+            self._write_partial(first_of_its_kind=self.vcount[k] == 1)
 
-    def _write_partial(self):
+    def _write_partial(self, first_of_its_kind=False):
         """A shard that has seen a violation leaves what it has so far next to its (future) result
         file: if the code under test then hangs or crashes the interpreter, the parent still reports
         the violation instead of an inconclusive time-out."""
         path = getattr(self, 'partial_path', None)
         n = len(self.violations)
-        if path is None or n & (n - 1):       # at the 1st, 2nd, 4th, 8th ... violation
+        if path is None or (n & (n - 1) and not first_of_its_kind):   # at the 1st, 2nd, 4th ... and at every new kind
             return
         try:
             res = self.result()
